@@ -10,21 +10,16 @@
    chain-sync style: a node receives a head together with all its unseen ancestors, oldest first, and stops
    at the first block refused by its finalized checkpoint.  Restart drops the in-memory casts and rebuilds them
    from the heads of the stored tree, exactly as bft.newCasts does.                                             *)
-EXTENDS Integers, Sequences, FiniteSets, TLC
+EXTENDS BFTOps
 
 CONSTANTS V,          \* validators (model values)
           Byz,        \* Byzantine subset
-          E,          \* epoch length
-          W,          \* voting weight per validator (all 1 under PoA)
-          ThrW,       \* threshold: an epoch is justified/committed when weight > ThrW  (mbp*2/3 resp. total*2/3)
           MaxBlocks,  \* bound on blocks created after the seed chain
           MaxByz,     \* bound on Byzantine blocks
           MaxRestarts,
-          Seed,       \* a chain every node starts with
-          Rank        \* total order on validators used for the id tie-break
+          Seed        \* a chain every node starts with
 
 Honest == V \ Byz
-NoBlock == << <<"none", FALSE>> >>
 
 VARIABLES blocks,    \* all blocks ever created
           nbyz, nrst,
@@ -34,96 +29,10 @@ VARIABLES blocks,    \* all blocks ever created
           casts      \* casts[v] : set of <<checkpoint, quality>> own votes kept in memory
 vars == <<blocks, nbyz, nrst, seen, best, fin, casts>>
 
-------------------------------------------------------------------------
-Num(b) == Len(b)
-Par(b) == SubSeq(b, 1, Len(b) - 1)
-Signer(b) == b[Len(b)][1]
-Com(b) == b[Len(b)][2]
-AncAt(b, n) == SubSeq(b, 1, n)
-IsAnc(a, b) == Len(a) <= Len(b) /\ SubSeq(b, 1, Len(a)) = a
-SameChain(a, b) == IsAnc(a, b) \/ IsAnc(b, a)
-CP(n) == (n \div E) * E             \* checkpoint height of n's epoch
-SP(n) == CP(n) + E - 1              \* store point (last height) of n's epoch
-
-RECURSIVE SumW(_)
-SumW(S) == IF S = {} THEN 0 ELSE LET x == CHOOSE x \in S : TRUE IN W[x] + SumW(S \ {x})
-
-\* heights of the blocks of b's epoch up to b (genesis, height 0, has no signer)
-EpochIdx(b) == {i \in 1..Len(b) : i >= CP(Len(b))}
-Voters(b) == {b[i][1] : i \in EpochIdx(b)}
-\* a validator that signed both a COM and a non-COM block in the epoch counts as non-COM
-ComVoters(b) == {v \in Voters(b) : \A i \in EpochIdx(b) : b[i][1] = v => b[i][2]}
-Justified(b) == SumW(Voters(b)) > ThrW
-Committed(b) == SumW(ComVoters(b)) > ThrW
-RECURSIVE Quality(_)
-Quality(b) == IF Len(b) = 0 THEN 0
-              ELSE LET cp == CP(Len(b))
-                       pq == IF cp = 0 THEN 0 ELSE Quality(AncAt(b, cp - 1))
-                   IN pq + (IF Justified(b) THEN 1 ELSE 0)
-EpochQ(h, n) == Quality(AncAt(h, SP(n)))
-
-\* bft.findCheckpointByQuality(target, finalized = f, head = h): first concluded epoch, from f's epoch on, whose
-\* quality reaches target; it must hit it exactly.
-FindCP(target, f, h) ==
-  LET start == CP(Len(f))
-      cands == {k \in 0..(Len(h) \div E) : k*E >= start /\ k*E + E - 1 <= Len(h) /\ EpochQ(h, k*E) >= target}
-  IN IF cands = {} THEN NoBlock
-     ELSE LET k == CHOOSE k \in cands : \A j \in cands : k <= j
-          IN IF EpochQ(h, k*E) = target THEN AncAt(h, k*E) ELSE NoBlock
-
-\* bft.ShouldVote: the COM bit of v's block on parent p, given v's finalized f and casts cs
-ShouldVoteWith(f, cs, p) ==
-  IF (Len(p) + 1) \div E = 0 THEN FALSE
-  ELSE LET q == Quality(p) IN
-    IF q = 0 THEN FALSE
-    ELSE LET jc == IF Justified(p) THEN AncAt(p, CP(Len(p)))
-                   ELSE FindCP(q, f, AncAt(p, SP(Len(p) - E)))
-         IN /\ jc # NoBlock
-            /\ \A c \in cs : (Len(c[1]) >= Len(f) /\ c[2] >= q - 1) => SameChain(c[1], jc)
 ShouldVote(v, p) == ShouldVoteWith(fin[v], casts[v], p)
-
-\* id order: lexicographic on the path with Rank on signers, non-COM < COM
-RECURSIVE LessPath(_,_,_)
-LessPath(a, b, i) == IF i > Len(a) THEN FALSE
-                     ELSE IF a[i] = b[i] THEN LessPath(a, b, i + 1)
-                     ELSE \/ Rank[a[i][1]] < Rank[b[i][1]]
-                          \/ (a[i][1] = b[i][1] /\ ~a[i][2] /\ b[i][2])
-\* fork choice of bft.Select: quality, then score (here: height), then smaller id
-Better(b, cur) == \/ Quality(b) > Quality(cur)
-                  \/ Quality(b) = Quality(cur) /\ Len(b) > Len(cur)
-                  \/ Quality(b) = Quality(cur) /\ Len(b) = Len(cur) /\ LessPath(b, cur, 1)
-Accepts(f, b) == IsAnc(f, Par(b))
-
-Prefixes(s) == {SubSeq(s, 1, n) : n \in 0..Len(s)}
-
-\* finalized after committing b when it was f before (bft.CommitBlock).  The search cannot fail for a block that
-\* descends from f unless b lies in f's own epoch (late sibling, finding F1); specified: finality unchanged.
-NewFin(f, b) == IF Len(b) = SP(Len(b)) /\ Committed(b) /\ Quality(b) > 1
-                THEN LET c == FindCP(Quality(b) - 1, f, b) IN IF c = NoBlock \/ ~IsAnc(f, c) THEN f ELSE c
-                ELSE f
-
-\* node state update for committing one block, on a record
-CommitRec(st, v, b) ==
-  [ seen |-> st.seen \cup {b},
-    best |-> IF Better(b, st.best) THEN b ELSE st.best,
-    fin  |-> NewFin(st.fin, b),
-    casts |-> IF Signer(b) = v
-              THEN LET cp == AncAt(b, CP(Len(b))) IN {c \in st.casts : c[1] # cp} \cup {<<cp, Quality(b)>>}
-              ELSE st.casts ]
 St(v) == [seen |-> seen[v], best |-> best[v], fin |-> fin[v], casts |-> casts[v]]
 SetSt(v, st) == /\ seen' = [seen EXCEPT ![v] = st.seen] /\ best' = [best EXCEPT ![v] = st.best]
                 /\ fin' = [fin EXCEPT ![v] = st.fin] /\ casts' = [casts EXCEPT ![v] = st.casts]
-
-\* bft.newCasts: for every head of the stored tree at or above finalized, the latest own block on it
-Heads(S, f) == {h \in S : Len(h) >= Len(f) /\ ~\E x \in S : x # h /\ IsAnc(h, x)}
-LatestOwn(v, h, f) ==
-  LET idx == {i \in 1..Len(h) : h[i][1] = v /\ (i > Len(f) \/ i = Len(h))} \* walk stops once height <= finalized
-  IN IF idx = {} THEN NoBlock ELSE AncAt(h, CHOOSE i \in idx : \A j \in idx : j <= i)
-NewCasts(v, S, f) ==
-  LET own == {LatestOwn(v, h, f) : h \in Heads(S, f)} \ {NoBlock}
-      cps == {AncAt(b, CP(Len(b))) : b \in own}
-  IN {<<cp, CHOOSE q \in {Quality(b) : b \in {x \in own : AncAt(x, CP(Len(x))) = cp}} :
-              \A b \in {x \in own : AncAt(x, CP(Len(x))) = cp} : Quality(b) <= q>> : cp \in cps}
 
 ------------------------------------------------------------------------
 Init == /\ blocks = Prefixes(Seed) /\ nbyz = 0 /\ nrst = 0
